@@ -2,6 +2,5 @@ SPECIFICATION TraceSpec
 CONSTANTS
   DefaultNI = "DEFAULT"
   TraceFile = "trace.ndjson"
-INVARIANTS InstalledIsFold NoDangling NothingResolvableHeld NoFwdMeansNoHeld CountersExact MirrorIsRib AnswerOnce PendShape FailedLeavesNoTrace
 POSTCONDITION TraceAccepted
 CHECK_DEADLOCK FALSE
